@@ -341,6 +341,9 @@ pub struct EpCfg {
     /// whose `ready()` starts failing when the scenario calls `fail_readiness()` (termination cause "service
     /// readiness error")
     pub ready_gate: bool,
+    /// with `ready_gate`: how many times the explorer may make the publish service not ready for a while (the
+    /// application's own back-pressure; inbound scenario event `Ev::Hold`)
+    pub holds: u8,
 }
 
 impl EpCfg {
@@ -384,6 +387,7 @@ impl EpCfg {
             client_connack_props: Vec::new(),
             tag: "EP",
             ready_gate: false,
+            holds: 0,
         }
     }
 
@@ -551,6 +555,7 @@ impl Drop for Conn {
 #[derive(Default)]
 pub struct ReadyState {
     failed: Cell<bool>,
+    held: Cell<bool>,
     waker: RefCell<Option<Waker>>,
 }
 
@@ -595,6 +600,22 @@ pub fn fail_readiness() {
     });
 }
 
+/// From now on (`true`) the publish service is not ready - an application with its own back-pressure, e.g. a full
+/// downstream queue - until `hold_readiness(false)`. Going not-ready is silent (the dispatcher notices at its next
+/// poll, as with any ntex service); becoming ready again wakes the task that asked last.
+pub fn hold_readiness(hold: bool) {
+    READY_GATE.with(|c| {
+        if let Some(st) = c.borrow().as_ref() {
+            st.held.set(hold);
+            if !hold {
+                if let Some(w) = st.waker.borrow_mut().take() {
+                    w.wake();
+                }
+            }
+        }
+    });
+}
+
 /// Publish service with an explorer-controlled readiness failure; `call` is the ordinary handler closure.
 pub struct ReadyGate<F> {
     f: F,
@@ -615,7 +636,7 @@ where
                 Poll::Ready(Err(TErr::Plain))
             } else {
                 *self.st.waker.borrow_mut() = Some(cx.waker().clone());
-                Poll::Ready(Ok(()))
+                if self.st.held.get() { Poll::Pending } else { Poll::Ready(Ok(())) }
             }
         })
         .await
